@@ -26,6 +26,7 @@ import random
 import onnx
 
 from harness import serde_common as sc
+from harness import serde_meta as sm
 from harness.common import Ctx, Part, lean_batch, load_corpus, pmap
 
 THEOREMS = [
@@ -36,16 +37,35 @@ THEOREMS = [
     "IrVerif.Scope.C17_deserialize_WF",
     "IrVerif.Scope.C17_total_model",
     "IrVerif.Scope.C17_idempotent_model_partial",
+    "IrVerif.Scope.C17_idempotent_model",
+    "IrVerif.Scope.C17_meta_idempotent",
+    "IrVerif.Scope.C17_idempotent_decorated",
+    "IrVerif.Scope.C17_meta_aligned",
 ]
 ASSUMPTIONS = [
     "byte-level parsing is protobuf's; Python RecursionError counts as 'raises'",
-    "value-info content (type, shape, doc_string) and tensor payloads are opaque tokens in the model; "
-    "metadata_props merge, quantization annotations, device configurations are oracle-only; functions are part "
-    "of the model for IR version >= 10 (FunctionProto.value_info format; attributes, opset imports, doc are "
-    "abstracted), the IR < 10 experimental value-info format is oracle-only",
-    "C17_idempotent is proved for every proto of the model (dangling / duplicate / shadowed names, "
-    "placeholders, unproduced outputs included); the model's serialize . deserialize is also run twice on "
-    "every generated proto (counter model_not_fixpoint must stay 0) and the oracle checks the real code",
+    "value-info content (type, shape, doc_string) and tensor payloads are opaque tokens in the model; functions are "
+    "part of the core model for IR version >= 10 (FunctionProto.value_info format)",
+    "decoration layer (Model/ScopeMeta.lean, scope.ddeser): metadata_props of model / graph / node / function, opset "
+    "imports, doc strings and the other _get_field fields, model and node device configurations (IR-version gate, "
+    "raise conditions; a sharding value is carried by name), function attributes (tokens; valued / valueless). Its "
+    "fix-point is a theorem (C17_meta_idempotent, C17_idempotent_decorated) and it is compared with the real "
+    "objects on every field case; function attributes of kinds other than INT / FLOAT / STRING / INTS and "
+    "reference attributes are outside its abstraction (counted)",
+    "extended model (Model/ScopeExt.lean, scope.edeser; main graph and nested graphs): value-level metadata_props "
+    "MERGED over every entry that reaches a value, quantization annotations, the value each sharding spec "
+    "resolves to. It erases to the core model (C17_ext_erasure), so consistency is a theorem (C17_consistent_ext); "
+    "its serialize-deserialize fix-point is NOT a theorem: the model's first and second re-serialization are "
+    "compared with the real ones on every field case (counter ext_model_fixpoint). Function bodies are not part "
+    "of the extended model",
+    "IR version < 10 function value-info format (Model/ScopeFunc9.lean, scope.mdeser9): modelled (post-pass, "
+    "experimental names, reserved names of D320's repair); C17_ir9_not_idempotent refutes the fix-point for the code "
+    "before the repair; for the repaired code the fix-point is differential (model Q and Q2 against the real "
+    "ones) and oracle-checked, not proved; value-level metadata on such models is compared leniently",
+    "C17_idempotent / C17_idempotent_model are proved for every proto of the core model (dangling / duplicate / "
+    "shadowed names, placeholders, unproduced outputs, duplicate function identifiers included); the model's "
+    "serialize . deserialize is also run twice on every generated proto (counter model_not_fixpoint must stay 0) "
+    "and the oracle checks the real code",
     "file access = audit events CPython raises for open/os.*/mmap/shutil/tempfile/glob/pathlib PLUS calls of the "
     "stat family (os.stat/lstat/access/readlink/scandir/listdir/statvfs, os.path.realpath and everything built on "
     "them: exists/getsize/isfile/...), which raise no audit event and are caught by counting wrappers; reads of "
@@ -205,7 +225,7 @@ def mutate_fields(rng, m: onnx.ModelProto, hist: dict) -> None:
          "cycle", "dup_attr_name", "tensor_unknown_dtype", "output_of_outer", "rename_to_dup",
          "shape_without_type", "func", "vinfo_metadata", "tensor_metadata", "big_dims", "seq_no_elem",
          "quant_annotation", "quant_annotation", "graph_node_metadata", "device_config", "device_config",
-         "map_type", "swap_io"]
+         "map_type", "swap_io", "deco", "deco", "deco", "ir9_collision"]
     )
     hist[f"mut={kind}"] = hist.get(f"mut={kind}", 0) + 1
     vis = list(g.input) + list(g.value_info) + list(g.output)
@@ -336,6 +356,44 @@ def mutate_fields(rng, m: onnx.ModelProto, hist: dict) -> None:
                 e.key, e.value = rng.choice(["nk", "nk", "nk2"]), rng.choice(["nv", ""])
         e = m.metadata_props.add()
         e.key, e.value = "mk", "mv"
+    elif kind == "deco":
+        mutate_decorations(rng, m, g, hist)
+    elif kind == "ir9_collision":
+        # a main-graph value whose NAME has the experimental `domain::function/value` form of the IR < 10
+        # function value-info format and names a value of a function of the model (D320)
+        m.ir_version = rng.choice([9, 9, 8, 10])
+        f = m.functions.add()
+        f.name, f.domain = "f", "custom"
+        f.input.append("a")
+        n = f.node.add()
+        n.op_type = "Identity"
+        n.input.append("a")
+        n.output.append("c")
+        f.output.append("c")
+        o = f.opset_import.add()
+        o.domain, o.version = "", 18
+        which = rng.choice(["func", "main", "both"])
+        if which in ("func", "both"):
+            sc.gen_value_info(rng, f.value_info.add(), rng.choice(["c", "a"]), p_type=1.0)
+        top = m.graph
+        name = rng.choice(["custom::f/c", "custom::f/c", "custom::f/a"])
+        how = rng.choice(["node_output", "node_output", "placeholder", "initializer"])
+        if how == "node_output":
+            n2 = top.node.add()
+            n2.op_type = "Identity"
+            n2.input.append(top.input[0].name if len(top.input) else "")
+            n2.output.append(name)
+        elif how == "placeholder" and len(top.node):
+            rng.choice(list(top.node)).input.append(name)
+        else:
+            sc.gen_tensor_proto(rng, top.initializer.add(), name)
+        if which in ("main", "both"):
+            sc.gen_value_info(rng, top.value_info.add(), name, p_type=1.0)
+        if rng.random() < 0.5:
+            # several experimental entries for one function value (the last one wins), no collision needed
+            for _ in range(rng.randrange(1, 3)):
+                sc.gen_value_info(rng, top.value_info.add(), rng.choice(["custom::f/c", "custom::f/a"]), p_type=1.0)
+                hist["ir9_repeated_experimental_entry"] = hist.get("ir9_repeated_experimental_entry", 0) + 1
     elif kind == "device_config":
         m.ir_version = rng.choice([11, 12, 13, 10, 9])
         for cname in rng.sample(["cfg0", "cfg1", "cfg0"], k=rng.randrange(0, 3)):
@@ -361,6 +419,159 @@ def mutate_fields(rng, m: onnx.ModelProto, hist: dict) -> None:
                         ss.dim_value = 4
                     else:
                         ss.dim_param = "N"
+
+
+def _add_entries(rng, field, keys) -> None:
+    """string-string entries in random order, with repeated and empty keys"""
+    for _ in range(rng.randrange(1, 5)):
+        e = field.add()
+        e.key, e.value = rng.choice(keys), rng.choice(["1", "2", "", "v"])
+
+
+def mutate_decorations(rng, m: onnx.ModelProto, g: onnx.GraphProto, hist: dict) -> None:
+    """fields of the decoration layer (Model/ScopeMeta.lean): repeated / unsorted / empty metadata keys on every
+    carrier, repeated opset domains, present-but-empty optional fields, function attributes (valued, valueless,
+    repeated names), device configurations around the IR-version gate"""
+    for what in rng.sample(["model_meta", "graph_meta", "node_meta", "func_meta", "opsets", "optional", "func_attrs",
+                            "func_opsets", "cfg"], k=rng.randrange(1, 5)):
+        if what.startswith("func_") and not len(m.functions):
+            continue
+        hist[f"deco={what}"] = hist.get(f"deco={what}", 0) + 1
+        keys = ["b", "a", "b", "", "é", "Z", "a0"]
+        if what == "model_meta":
+            _add_entries(rng, m.metadata_props, keys)
+        elif what == "graph_meta":
+            _add_entries(rng, g.metadata_props, keys)
+            if rng.random() < 0.5:
+                g.doc_string = rng.choice(["", "gdoc"])
+            if rng.random() < 0.3:
+                g.name = rng.choice(["", "gname"])
+        elif what == "node_meta" and len(g.node):
+            n = rng.choice(list(g.node))
+            _add_entries(rng, n.metadata_props, keys)
+            if rng.random() < 0.5:
+                n.doc_string = rng.choice(["", "ndoc"])
+            if rng.random() < 0.3:
+                n.domain = rng.choice(["ai.onnx", "", "custom"])
+        elif what == "opsets":
+            for _ in range(rng.randrange(1, 4)):
+                o = m.opset_import.add()
+                o.domain, o.version = rng.choice(["", "custom", "", "z.dom"]), rng.choice([1, 18, 21])
+        elif what == "optional":
+            for field, vals in (("producer_name", ["", "verif"]), ("producer_version", ["", "1.0"]),
+                                ("domain", ["", "dom"]), ("doc_string", ["", "mdoc"])):
+                if rng.random() < 0.5:
+                    setattr(m, field, rng.choice(vals))
+            if rng.random() < 0.5:
+                m.model_version = rng.choice([0, 3])
+        elif what == "cfg":
+            m.ir_version = rng.choice([10, 11, 11, 12])
+            for cname in rng.sample(["cfgA", "cfgB", "cfgA"], k=rng.randrange(1, 3)):
+                c = m.configuration.add()
+                c.name, c.num_devices = cname, rng.choice([1, 2])
+                c.device.extend(rng.choice([[], ["d0"]]))
+            if len(g.node):
+                n = rng.choice(list(g.node))
+                dc = n.device_configurations.add()
+                dc.configuration_id = rng.choice(["cfgA", "cfgA", "other", ""])
+                if rng.random() < 0.5:
+                    dc.pipeline_stage = rng.choice([0, 2])
+                for _ in range(rng.randrange(0, 3)):
+                    sp = dc.sharding_spec.add()
+                    sp.tensor_name = rng.choice([x for x in list(n.input) + list(n.output) if x] + ["ghost_s", "ghost_s", ""])
+                    sp.device.extend(rng.choice([[], [0, 1]]))
+        elif len(m.functions):
+            f = rng.choice(list(m.functions))
+            if what == "func_meta":
+                _add_entries(rng, f.metadata_props, keys)
+                if rng.random() < 0.5:
+                    f.doc_string = rng.choice(["", "fdoc"])
+                if len(f.node) and rng.random() < 0.5:
+                    _add_entries(rng, rng.choice(list(f.node)).metadata_props, keys)
+            elif what == "func_opsets":
+                for _ in range(rng.randrange(1, 3)):
+                    o = f.opset_import.add()
+                    o.domain, o.version = rng.choice(["", "custom"]), rng.choice([1, 18])
+            elif what == "func_attrs":
+                names = ["alpha", "beta", "alpha", "gamma"]
+                for _ in range(rng.randrange(1, 4)):
+                    a = f.attribute_proto.add()
+                    a.name = rng.choice(names)
+                    t = rng.choice(["i", "s", "u", "ints"])
+                    if t == "i":
+                        a.type, a.i = onnx.AttributeProto.INT, rng.choice([0, 7])
+                    elif t == "s":
+                        a.type, a.s = onnx.AttributeProto.STRING, rng.choice([b"", b"txt"])
+                    elif t == "ints":
+                        a.type = onnx.AttributeProto.INTS
+                        a.ints.extend(rng.choice([[], [1, 2]]))
+                    else:
+                        a.type = onnx.AttributeProto.UNDEFINED
+                    if rng.random() < 0.3:
+                        a.doc_string = "adoc"
+                for _ in range(rng.randrange(0, 3)):
+                    f.attribute.append(rng.choice(names))
+
+
+def mutate_ext(rng, m: onnx.ModelProto, hist: dict) -> None:
+    """inputs of the extended model (Model/ScopeExt.lean): metadata on SEVERAL entries of one name (input /
+    value_info / output) with overlapping keys, quantization annotations for every kind of name (twice for one
+    name, with an empty map, for names nothing carries), sharding specs that name outer, shadowed, dangling and
+    empty names"""
+    graphs = list(_all_graph_protos(m.graph))
+    for what in rng.sample(["meta_merge", "quant", "shard"], k=rng.randrange(1, 4)):
+        g = rng.choice(graphs)
+        names = ([i.name for i in g.input] + [t.name for t in g.initializer] + [o for n in g.node for o in n.output]
+                 + [x for n in g.node for x in n.input] + [o.name for o in g.output])
+        names = [x for x in names if x]
+        if not names:
+            continue
+        hist[f"ext={what}"] = hist.get(f"ext={what}", 0) + 1
+        if what == "meta_merge":
+            for _ in range(rng.randrange(1, 4)):
+                name = rng.choice(names)
+                entries = [v for v in list(g.input) + list(g.value_info) + list(g.output) if v.name == name]
+                if rng.random() < 0.5 or not entries:
+                    e = rng.choice([g.value_info, g.output]).add()
+                    e.name = name
+                    if rng.random() < 0.5:
+                        e.type.tensor_type.elem_type = 1
+                    entries.append(e)
+                for e in rng.sample(entries, k=rng.randrange(1, len(entries) + 1)):
+                    for _k in range(rng.randrange(1, 3)):
+                        kv = e.metadata_props.add()
+                        kv.key, kv.value = rng.choice(["k", "k", "b", "a", ""]), rng.choice(["1", "2", ""])
+        elif what == "quant":
+            for _ in range(rng.randrange(1, 4)):
+                a = g.quantization_annotation.add()
+                a.tensor_name = rng.choice(names + names + ["ghost_q", ""])
+                for k, v in rng.sample([("SCALE_TENSOR", "s"), ("ZERO_POINT_TENSOR", "z"), ("SCALE_TENSOR", "s2"),
+                                        ("", ""), ("k", "v")], k=rng.randrange(0, 4)):
+                    kv = a.quant_parameter_tensor_names.add()
+                    kv.key, kv.value = k, v
+        elif len(g.node):
+            m.ir_version = rng.choice([11, 11, 12, 10])
+            n = rng.choice(list(g.node))
+            dc = n.device_configurations.add()
+            dc.configuration_id = rng.choice(["cfg0", "cfg0", ""])
+            outer = [x for gg in graphs for nn in gg.node for x in list(nn.output) if x]
+            for _ in range(rng.randrange(1, 4)):
+                sp = dc.sharding_spec.add()
+                sp.tensor_name = rng.choice(names + outer + ["ghost_s", ""])
+                sp.device.extend(rng.choice([[], [0, 1]]))
+
+
+def ir9_collides_with_main_graph_value(q, q2) -> bool:
+    """a value_info entry of q / q2 in the experimental `domain::function/value` form that names a function of the
+    model AND is the name of a value of the main graph (node input / output or initializer): D320"""
+    top = {x for n in q.graph.node for x in list(n.input) + list(n.output) if x} | {t.name for t in q.graph.initializer}
+    funcs = {(f.domain, f.name) for f in q.functions}
+    for v in list(q.graph.value_info) + list(q2.graph.value_info):
+        d, sep, rest = v.name.partition("::")
+        fn, sep2, _val = rest.partition("/")
+        if sep and sep2 and (d, fn) in funcs and v.name in top:
+            return True
+    return False
 
 
 def ir9_unparseable_function_value_info(q, q2) -> bool:
@@ -547,12 +758,16 @@ def run_case(part, m: onnx.ModelProto, stream: str, want_model: bool, lean_reqs:
     flags: dict = {}
     gp = None
     mp = None
+    mp9 = None
     if want_model:
         try:
             gp = sc.graph_proto_to_model(m.graph, flags)
             if len(m.functions) and m.ir_version >= 10:
                 # the function-aware model (FunctionProto.value_info format of IR version >= 10)
                 mp = sc.model_proto_to_model(m, flags)
+            elif len(m.functions):
+                # IR version < 10: the experimental `domain::function/value` format (Model/ScopeFunc9.lean)
+                mp9 = sc.model_proto_to_model(m, flags)
         except sc.OutsideModel as e:
             part.count(f"outside_model={e.args[0][:30]}")
             gp = None
@@ -654,12 +869,15 @@ def run_case(part, m: onnx.ModelProto, stream: str, want_model: bool, lean_reqs:
                             case,
                         )
                         q2 = None
+                    flags["_q2"] = q2
                     if q2 is not None and _det(q) != _det(q2):
                         d = proto_diff_kind(q, q2) or "?"
                         if has_empty_value_info(q):
                             sig = "fixpoint:value-info-shape-without-type"  # D100
                         elif initializer_info_regained(q, q2):
                             sig = "fixpoint:initializer-with-empty-value-info"  # D101
+                        elif q.ir_version < 10 and len(q.functions) and ir9_collides_with_main_graph_value(q, q2):
+                            sig = "fixpoint:ir9-function-value-info-collides-with-main-graph-value"  # D320
                         elif q.ir_version < 10 and len(q.functions) and ir9_unparseable_function_value_info(q, q2):
                             sig = "fixpoint:ir9-function-value-info-unparseable-name"  # D106
                         elif q.ir_version < 10 and any(f.overload for f in q.functions) and any(
@@ -684,6 +902,30 @@ def run_case(part, m: onnx.ModelProto, stream: str, want_model: bool, lean_reqs:
     # ---- the other public entry points (a fifth of the cases, chosen by content)
     if zlib.crc32(_det(m)) % 5 == 0:
         run_entrypoints(part, m, case)
+    # ---- decoration layer (Model/ScopeMeta.lean): every case the core abstraction covers
+    if gp is not None:
+        try:
+            dp = sm.model_proto_to_deco(m)
+            lean_reqs.append({"m": "scope.ddeser", "d": dp})
+            pending.append(("D", case, flags, model, err, q))
+        except sc.OutsideModel as e:
+            part.count(f"deco_outside_model={e.args[0][:30]}")
+        except RecursionError:
+            part.count("deco_outside_model=recursion")
+    # ---- extended model (Model/ScopeExt.lean): value metadata merge, quantization annotations, sharding values
+    if gp is not None:
+        try:
+            ge = sm.graph_proto_to_ext(m.graph, {})
+            lean_reqs.append({"m": "scope.edeser", "p": ge, "ver": int(m.ir_version)})
+            pending.append(("E", case, flags, model, err, q, m))
+        except sc.OutsideModel as e:
+            part.count(f"ext_outside_model={e.args[0][:30]}")
+        except RecursionError:
+            part.count("ext_outside_model=recursion")
+    if gp is not None and mp9 is not None:
+        part.count("model_ir9_with_functions")
+        lean_reqs.append({"m": "scope.mdeser9", "fixed": True, **mp9})
+        pending.append((case, dict(flags, with_functions=1, ir9=1), model, err, q))
     # ---- model
     if gp is not None and mp is not None:
         part.count("model_with_functions")
@@ -767,7 +1009,11 @@ def diff_case(part, out: dict, case, flags, model, err, q) -> None:
                     break
         part.disagree(what, case, mod, real)
         return
-    if not out.get("ser_ok") or not out.get("deser2_ok") or not out.get("ser2_ok") or out.get("q") != out.get("q2"):
+    if flags.get("ir9"):
+        # IR < 10: the model does not claim a fix-point (C17_ir9_not_idempotent); its second serialization is
+        # compared with the real one below
+        pass
+    elif not out.get("ser_ok") or not out.get("deser2_ok") or not out.get("ser2_ok") or out.get("q") != out.get("q2"):
         # C17_idempotent is a theorem about the model: the driver contradicting it means the executable is
         # not the model the proofs are about
         part.count("model_not_fixpoint")
@@ -810,6 +1056,25 @@ def diff_case(part, out: dict, case, flags, model, err, q) -> None:
                 else:
                     what += " (number of functions)"
             part.disagree(what, case, out.get("q"), rq)
+            return
+        if flags.get("ir9"):
+            part.count("ir9_first_serialization_agrees")
+            q2 = flags.get("_q2")
+            if q2 is None:
+                if out.get("deser2_ok") and out.get("ser2_ok"):
+                    part.disagree("IR<10: from_proto/to_proto of the re-serialized proto raises, the model does not",
+                                  case, "ok", "raised")
+                return
+            try:
+                rq2 = sc.model_proto_to_model(q2)
+            except sc.OutsideModel:
+                return
+            if rq2 != out.get("q2"):
+                part.disagree("IR<10: second re-serialization differs between model and real code", case,
+                              out.get("q2"), rq2)
+                return
+            part.count("ir9_second_serialization_agrees")
+            part.count(f"ir9_model_fixpoint={out.get('q') == out.get('q2')}")
     elif not lenient and not (len(q.functions) and q.ir_version < 10):
         try:
             rq = sc.graph_proto_to_model(q.graph)
@@ -822,6 +1087,136 @@ def diff_case(part, out: dict, case, flags, model, err, q) -> None:
                     what += f" ({k})"
                     break
             part.disagree(what, case, out.get("q"), rq)
+
+
+def diff_deco(part, out: dict, case, flags, model, err, q) -> None:
+    """decorations: the Lean model `deserModelD` / `serModelD` against the real objects"""
+    if "err" in out and "world" not in out:
+        part.disagree("driver error (scope.ddeser): " + str(out["err"])[:200], case, out, None)
+        return
+    part.count("deco_cases")
+    part.count(f"deco_wf={out.get('wf')}")
+    if out.get("wf") is not True:
+        part.disagree("model: deserialized decorations violate the representation invariant (wfDeserModelD)", case,
+                      out.get("wf"), True)
+    if out.get("ser_ok"):
+        part.count("deco_model_ser=ok")
+        if out.get("ser2_ok") is not True or out.get("q2") != out.get("q"):
+            # C17_meta_idempotent is a theorem about the model
+            part.count("model_deco_not_fixpoint")
+            part.disagree("model: decorations of serialize(deserialize(serialize(deserialize p))) differ from the first",
+                          case, out.get("q2"), out.get("q"))
+        if out.get("reload") != out.get("canon"):
+            part.disagree("model: reloaded decorations are not the canonical form (C03_meta_roundtrip)", case,
+                          out.get("reload"), out.get("canon"))
+    else:
+        part.count(f"deco_model_ser=raises:{out.get('ser_err')}")
+    if err is not None:
+        return
+    try:
+        real = sm.ir_model_to_deco(model)
+    except sc.OutsideModel as e:
+        part.count(f"deco_ir_outside_model={e.args[0][:30]}")
+        return
+    except RecursionError:
+        return
+    if real != out["world"]:
+        d = sm.first_difference(real, out["world"])
+        part.disagree(f"decorations of the deserialized IR differ at {d}", case, out["world"], real)
+        return
+    part.count("deco_world_agrees")
+    if q is None:
+        why = flags.get("to_proto_error", "")
+        if any(k in why for k in sm.DEVICE_ERRORS):
+            if out.get("ser_ok"):
+                part.disagree("to_proto raises on a device configuration, the model serializes the decorations",
+                              case, "ok", why)
+            else:
+                part.count("deco_both_raise")
+        return
+    if not out.get("ser_ok"):
+        part.disagree("model: serializing the decorations raises, to_proto returns", case, out.get("ser_err"), "ok")
+        return
+    try:
+        rq = sm.model_proto_to_deco(q)
+    except (sc.OutsideModel, RecursionError):
+        return
+    if rq != out["q"]:
+        d = sm.first_difference(rq, out["q"])
+        part.disagree(f"decorations of the re-serialized proto differ at {d}", case, out["q"], rq)
+        return
+    part.count("deco_proto_agrees")
+
+
+def diff_ext(part, out: dict, case, flags, model, err, q, m) -> None:
+    """extended model (merged value metadata, quantization annotations, sharding values of node device
+    configurations) against the real main graph: IR after from_proto, first and second re-serialization"""
+    if "err" in out and "ok" not in out:
+        part.disagree("driver error (scope.edeser): " + str(out["err"])[:200], case, out, None)
+        return
+    if err is not None or not out.get("ok"):
+        return  # raise / no raise is compared by the core request of the same case
+    part.count("ext_cases")
+    try:
+        real = sm.canon_world_ext(sm.ir_graph_to_world_ext(model.graph))
+    except sc.OutsideModel as e:
+        part.count(f"ext_ir_outside_model={e.args[0][:30]}")
+        return
+    except RecursionError:
+        return
+    mod = sm.canon_world_ext({"world": out["world"], "ext": out["ext"]})
+    if real != mod:
+        d = sm.first_difference(real, mod)
+        part.disagree(f"extended model: deserialized IR differs at {d}", case, mod, real)
+        return
+    part.count("ext_world_agrees")
+    if any(x for x in real["ext"]["quant"]):
+        part.count("ext_with_quant_annotation")
+    if any(len(x) > 0 for x in real["ext"]["vmeta"]):
+        part.count("ext_with_value_metadata")
+    if any(sp[0] is not None for ds in real["ext"]["devs"] for d in ds for sp in d["specs"]):
+        part.count("ext_with_sharding_value")
+    func_devs = any(len(n.device_configurations) for f in m.functions for n in f.node)
+    if q is None:
+        why = flags.get("to_proto_error", "")
+        if any(k in why for k in sm.DEVICE_ERRORS):
+            if out.get("ser_ok") and not func_devs:
+                part.disagree("to_proto raises on a device configuration, the extended model serializes", case, "ok", why)
+            elif not out.get("ser_ok"):
+                part.count("ext_both_raise")
+        elif not out.get("ser_ok"):
+            part.count(f"ext_model_raises_real_raises_elsewhere={out.get('ser_err')}")
+        return
+    if not out.get("ser_ok"):
+        part.disagree("extended model: serialization raises, to_proto returns", case, out.get("ser_err"), "ok")
+        return
+    if len(q.functions) and q.ir_version < 10:
+        return  # the main graph's value_info also carries the experimental entries of the functions (ScopeFunc9)
+    try:
+        rq = sm.graph_proto_to_ext(q.graph, {})
+    except (sc.OutsideModel, RecursionError):
+        return
+    if rq != out["q"]:
+        d = sm.first_difference(rq, out["q"])
+        part.disagree(f"extended model: re-serialized main graph differs at {d}", case, out["q"], rq)
+        return
+    part.count("ext_first_serialization_agrees")
+    q2 = flags.get("_q2")
+    if q2 is None:
+        return
+    if not (out.get("deser2_ok") and out.get("ser2_ok")):
+        part.disagree("extended model: second round raises, the real code does not", case, "raised", "ok")
+        return
+    try:
+        rq2 = sm.graph_proto_to_ext(q2.graph, {})
+    except (sc.OutsideModel, RecursionError):
+        return
+    if rq2 != out["q2"]:
+        d = sm.first_difference(rq2, out["q2"])
+        part.disagree(f"extended model: second re-serialization differs at {d}", case, out["q2"], rq2)
+        return
+    part.count("ext_second_serialization_agrees")
+    part.count(f"ext_model_fixpoint={out['q'] == out['q2']}")
 
 
 # --------------------------------------------------------------------------- worker / run
@@ -886,6 +1281,12 @@ def _worker(args) -> Part:
         if rng.random() < 0.35:
             for _ in range(rng.choice([1, 1, 2])):
                 mutate_fields(rng, m, hist)
+        if rng.random() < 0.3:
+            mutate_decorations(rng, m, _rand_graph(rng, m), hist)
+            hist["decorated"] = hist.get("decorated", 0) + 1
+        if rng.random() < 0.3:
+            mutate_ext(rng, m, hist)
+            hist["ext_mutated"] = hist.get("ext_mutated", 0) + 1
         if len(valid_pool) < 40:
             valid_pool.append(_det(m))
         run_case(part, m, "field", True, lean_reqs, pending)
@@ -899,8 +1300,13 @@ def _worker(args) -> Part:
             continue
         run_case(part, m, "bytes", False, lean_reqs, pending)
     outs = lean_batch(lean_reqs)
-    for out, (case, flags, model, err, q) in zip(outs, pending):
-        diff_case(part, out, case, flags, model, err, q)
+    for out, p in zip(outs, pending):
+        if p[0] == "D":
+            diff_deco(part, out, *p[1:])
+        elif p[0] == "E":
+            diff_ext(part, out, *p[1:])
+        else:
+            diff_case(part, out, *p)
     for k, v in hist.items():
         part.count(k, v)
     return part
@@ -941,5 +1347,10 @@ def replay(ctx: Ctx, obj: dict) -> None:
         m.ParseFromString(binascii.unhexlify(case["proto_hex"]))
         run_case(part, m, case.get("stream", "field"), case.get("stream", "field") == "field", reqs, pending)
     for out, p in zip(lean_batch(reqs), pending):
-        diff_case(part, out, *p)
+        if p[0] == "D":
+            diff_deco(part, out, *p[1:])
+        elif p[0] == "E":
+            diff_ext(part, out, *p[1:])
+        else:
+            diff_case(part, out, *p)
     ctx.merge(part)
